@@ -67,6 +67,42 @@ Theorem C14_unknown_matchby : forall split fixed mb a b,
 Proof. exact (match_scope_other match_consts). Qed.
 Print Assumptions C14_unknown_matchby.
 
+(* the rule URIs are compared as they are: an upper-cased or extended rule URI selects no rule at all *)
+Theorem C14_matchby_exact_uri :
+  let none mb := is_rfc match_consts (Some mb) || is_strcmp match_consts (Some mb) in
+  none (upper_s (m_uri match_consts)) = false /\ none (upper_s (m_strcmp match_consts)) = false /\
+  none (m_uri match_consts ++ [47]%N) = false /\ none (m_strcmp match_consts ++ [47]%N) = false /\
+  none [32]%N = false.
+Proof. vm_compute. repeat split; reflexivity. Qed.
+Print Assumptions C14_matchby_exact_uri.
+
+(* ... and under such a rule nothing matches at any level, identical text included: not one scope against a
+   service's scope list, not a service against a filter with at least one scope, no service of a list *)
+Theorem C14_unknown_rule_matches_nothing : forall fixed split mb u us srv sv svs types,
+  is_rfc match_consts mb = false -> is_strcmp match_consts mb = false ->
+  scope_in_list match_consts fixed split mb u srv = Ret false /\
+  matches_filter match_consts fixed split sv types (Some (mb, u :: us)) = Ret false /\
+  filter_services match_consts fixed split svs types (Some (mb, u :: us)) = Ret [].
+Proof.
+  intros. split; [now apply scope_in_list_other|]. split; [now apply matches_filter_other|now apply filter_services_other].
+Qed.
+Print Assumptions C14_unknown_rule_matches_nothing.
+
+(* a text that is not a well-formed URI matches nothing under the RFC 3986 rule, not even itself (repaired code) *)
+Theorem C14_malformed_matches_nothing : forall split mb a b,
+  is_rfc match_consts mb = true -> split a = SplitErr \/ split b = SplitErr ->
+  match_scope match_consts true split mb a b = Ret false.
+Proof. exact (match_scope_malformed match_consts). Qed.
+Print Assumptions C14_malformed_matches_nothing.
+
+(* a requested scope that is VERBATIM among the scopes of a service: the verdict is decided by the requested rule
+   alone -- RFC 3986 rules: matched iff the text is a well-formed URI; strcmp0: matched; any other rule: not matched *)
+Theorem C14_identical_text_by_rule : forall split mb u es, In u es ->
+  scope_in_list match_consts true split mb u (Some es) =
+  Ret (if is_rfc match_consts mb then negb (is_err (split u)) else is_strcmp match_consts mb).
+Proof. exact (identical_text_by_rule match_consts). Qed.
+Print Assumptions C14_identical_text_by_rule.
+
 (* repaired code: match_scope always returns a verdict, whatever urlsplit does with the two texts *)
 Theorem C14_match_total : forall split mb a b,
   exists r, match_scope match_consts true split mb a b = Ret r.
@@ -91,6 +127,14 @@ Theorem C14_probe_exact : forall split d types scopes,
   (d, map OProbeMatch (filter (matchesb match_consts true split types scopes) (t_values (local d)))).
 Proof. exact (probe_exact match_consts). Qed.
 Print Assumptions C14_probe_exact.
+
+(* a Probe that names a rule the node does not implement and asks for at least one scope is not answered, whatever
+   the published services offer (identical scope texts included) *)
+Theorem C14_probe_unknown_rule_unanswered : forall fixed split d types mb u us,
+  is_rfc match_consts mb = false -> is_strcmp match_consts mb = false ->
+  handle match_consts fixed split d (MProbe types (Some (mb, u :: us))) = (d, []).
+Proof. exact (probe_unknown_rule match_consts). Qed.
+Print Assumptions C14_probe_unknown_rule_unanswered.
 
 Theorem C14_probe_match_only_for_probe : forall fixed split d m s,
   In (OProbeMatch s) (snd (handle match_consts fixed split d m)) -> exists types scopes, m = MProbe types scopes.
@@ -121,6 +165,28 @@ Theorem C14_table_max_version : forall fixed split ms epr, epr <> []%list ->
 Proof. exact (table_after_messages match_consts). Qed.
 Print Assumptions C14_table_max_version.
 
+(* a Bye removes the entry of its endpoint reference and nothing else, whatever it carries besides the endpoint
+   reference (AppSequence or not, MetadataVersion lower / equal / higher than the recorded one, Types, Scopes, XAddrs) *)
+Theorem C14_bye_clears : forall fixed split d epr bx,
+  handle match_consts fixed split d (MBye epr bx) = (mkD (t_del epr (remote d)) (local d), []) /\
+  t_get epr (remote (fst (handle match_consts fixed split d (MBye epr bx)))) = None /\
+  (forall k, bytes_eqb k epr = false ->
+             t_get k (remote (fst (handle match_consts fixed split d (MBye epr bx)))) = t_get k (remote d)).
+Proof. exact (bye_clears match_consts). Qed.
+Print Assumptions C14_bye_clears.
+
+(* "since its last Bye" read literally: the first announcement after a Bye is recorded as it is, from any state
+   (any recorded version), after any Bye, with any (e.g. restarted, lower) metadata version *)
+Theorem C14_announcement_after_bye : forall fixed split d bx iid s, s_epr s <> []%list ->
+  t_get (s_epr s) (remote (handle_all match_consts fixed split d [MBye (s_epr s) bx; MHello (Some iid) s]))
+    = Some (with_iid iid s) /\
+  t_get (s_epr s) (remote (handle_all match_consts fixed split d [MBye (s_epr s) bx; MResolveMatches (Some iid) (Some s)]))
+    = Some (with_iid iid s) /\
+  t_get (s_epr s) (remote (handle_all match_consts fixed split d [MBye (s_epr s) bx; MProbeMatches (Some iid) [s]]))
+    = Some (with_iid iid s).
+Proof. exact (announcement_after_bye match_consts). Qed.
+Print Assumptions C14_announcement_after_bye.
+
 (* the empty endpoint reference is never recorded *)
 Theorem C14_no_empty_epr : forall rh, t_get [] (table_of rh) = None.
 Proof. exact table_no_empty_epr. Qed.
@@ -134,6 +200,7 @@ Proof. unfold known_ids_cap. lia. Qed.
    fewer than cap further ids were registered (the bound is part of the claim) *)
 Theorem C14_dedup : forall k id es,
   is_known k id = false ->
+  no_restart es = true ->                   (* stop() + start() creates a new NetworkingThread with an empty memory *)
   (count_inserts known_ids_cap (remember known_ids_cap k id) es < known_ids_cap)%nat ->
   dstep known_ids_cap k (EvIn id) = (remember known_ids_cap k id, true) /\
   snd (dstep known_ids_cap (fst (drun known_ids_cap (remember known_ids_cap k id) es)) (EvIn id)) = false.
@@ -157,6 +224,6 @@ Example C14_nonvacuous :
   (let s v := mkService [114]%N [] None [] v 1 in
    map (fun kv => s_mdv (snd kv))
        (remote (handle_all match_consts false (urlsplit false) (mkD [] [])
-                  [MHello (Some 1%Z) (s 2%Z); MHello (Some 1%Z) (s 1%Z); MBye [114]%N; MResolveMatches (Some 1%Z) (Some (s 1%Z));
+                  [MHello (Some 1%Z) (s 2%Z); MHello (Some 1%Z) (s 1%Z); MBye [114]%N (mkBx None (Some 1%Z) [] (Some [[120]%N]) [[121]%N]); MResolveMatches (Some 1%Z) (Some (s 1%Z));
                    MProbeMatches (Some 1%Z) [s 3%Z; s 2%Z]])) = [3%Z]).
 Proof. vm_compute. repeat split; reflexivity. Qed.
